@@ -179,6 +179,10 @@ func checkC09(x *X, c *Case, strict bool) *Outcome {
 	if ex := knownExclusion(x, ref, strict); ex != "" {
 		return &Outcome{Excluded: ex}
 	}
+	if !strict && x.KF["KF-C09-INLINESCOPE"] && g.InlineLabelClash() {
+		// the run-time face of KF-C04-OPTSCOPE (see Grammar.InlineLabelClash)
+		return &Outcome{Excluded: "KF-C09-INLINESCOPE"}
+	}
 	o := &Outcome{Tags: commonTags(c, ref)}
 	var u, opt []PkgMeta
 	for _, p := range x.G.Pkgs {
